@@ -4780,9 +4780,27 @@ int main(int argc, char** argv) {
             ephemeralnet::daemon::ControlFields base_fields{{"MANIFEST", manifest_uri},
                                                             {"STREAM", "client"}};
 
+            // Bytes are only ever written locally when they hash to the manifest's content hash.
+            auto payload_matches_manifest = [&](const ephemeralnet::daemon::ControlResponse& response) {
+                if (!response.has_payload) {
+                    return true;
+                }
+                if (!decoded_manifest.has_value()) {
+                    return false;
+                }
+                const auto digest = ephemeralnet::crypto::Sha256::digest(
+                    std::span<const std::uint8_t>(response.payload.data(), response.payload.size()));
+                return digest == decoded_manifest->chunk_hash;
+            };
+
             auto finalize_fetch = [&](const ephemeralnet::daemon::ControlResponse& response) {
                 const auto reported_size = response.fields.contains("SIZE") ? response.fields.at("SIZE") : "0";
                 if (response.has_payload) {
+                    if (!payload_matches_manifest(response)) {
+                        throw_cli_error("E_FETCH_HASH_MISMATCH",
+                                        "Received payload does not match the manifest content hash",
+                                        "The endpoint returned other bytes than the stored payload; retry against another provider");
+                    }
                     try {
                         std::ofstream out(resolved_output, std::ios::binary | std::ios::trunc);
                         if (!out) {
@@ -5093,6 +5111,10 @@ int main(int argc, char** argv) {
                         const std::string reason = message_it != response->fields.end() ? message_it->second
                                                                                          : "Remote daemon rejected request";
                         attempt_log.push_back({friendly_label, reason});
+                        return false;
+                    }
+                    if (!payload_matches_manifest(*response)) {
+                        attempt_log.push_back({friendly_label, "Payload does not match the manifest content hash"});
                         return false;
                     }
 
